@@ -79,6 +79,18 @@ def twin_constant_programs():
 
 
 def build_recipe(fa, ctx, recipe, syms):
+    """syms may carry "__force__": True -> every constructed node (constants included) asks for a reference, so that the
+    emitted code assigns it to a variable (and, with debug=1, asserts its dtype)."""
+    e = _build_recipe(fa, ctx, recipe, syms)
+    if syms.get("__force__") and recipe[0] not in ("x", "y"):
+        try:
+            e.reference(force=True)
+        except Exception:
+            pass
+    return e
+
+
+def _build_recipe(fa, ctx, recipe, syms):
     k = recipe[0]
     if k in ("x", "y"):
         return syms[k]
@@ -126,11 +138,11 @@ def inputs_for(dt):
     return [t(v) for v in VALUES]
 
 
-def run_one(fa, recipe, dtx, dty, simplify):
+def run_one(fa, recipe, dtx, dty, simplify, force=False):
     """returns (status, info)."""
 
     def f(ctx, x, y):
-        return build_recipe(fa, ctx, recipe, {"x": x, "y": y})
+        return build_recipe(fa, ctx, recipe, {"x": x, "y": y, "__force__": force})
 
     with quiet():
         try:
@@ -235,7 +247,7 @@ def subtrees(r):
     if r[0] in ("x", "y", "c", "n", "cy"):
         return
     for q in r[1:]:
-        if q[0] not in ("x", "y", "c", "n", "cy"):
+        if q[0] not in ("x", "y"):
             yield q
         yield from subtrees(q)
 
@@ -247,19 +259,23 @@ def w_progs(task):
     for recipe in progs:
         for dtx in DTYPES:
             for dty in (DTYPES if "y" in skeleton(recipe).replace("y)", "y)") and _uses_y(recipe) else DTYPES[:1]):
-                for simplify in (True, False) if task["both"] else (True,):
+                # (simplify, force): force=True asks for a variable for every node, constants included, so that the debug
+                # assertion covers nodes that would otherwise be printed inline
+                for simplify, force in ((True, False), (False, False), (False, True)) if task["both"] else ((True, False), (False, True)):
                     part["evaluations"] += 1
-                    st, info = run_one(fa, recipe, dtx, dty, simplify)
+                    st, info = run_one(fa, recipe, dtx, dty, simplify, force)
                     bump(part, "status_" + st)
                     if st == "assertion":
                         best = recipe
                         for sub in subtrees(recipe):
-                            s2, i2 = run_one(fa, sub, dtx, dty, simplify)
+                            s2, i2 = run_one(fa, sub, dtx, dty, simplify, force)
                             if s2 == "assertion":
                                 best, info = sub, i2
                                 break
                         sig = signature(fa, best, dtx, dty, info)
-                        add_violation(part, sig, f"{skeleton(recipe)} with x:{dtx}, y:{dty} (simplify={simplify}): emitted debug assertion fails: {info[0]} at inputs {info[1]}, {info[2]}", {"recipe": repr(recipe), "dtx": dtx, "dty": dty, "simplify": simplify})
+                        if force and best[0] in ("c", "n", "cy"):
+                            sig = f"dtype-assertion:constant:{best[1] if best[0] == 'n' else 'numeric'}:like={dtx if best[0] != 'cy' else dty}:{classify_assert(info[0])}"
+                        add_violation(part, sig, f"{skeleton(recipe)} with x:{dtx}, y:{dty} (simplify={simplify}, every node referenced={force}): emitted debug assertion fails: {info[0]} at inputs {info[1]}, {info[2]}", {"recipe": repr(recipe), "dtx": dtx, "dty": dty, "simplify": simplify, "force": force})
                     elif st == "ok":
                         part["nontrivial"] += 1
     if progs:
@@ -340,11 +356,12 @@ def replay(case):
     part = new_part()
     if "recipe" in case:
         recipe = eval(case["recipe"])
-        st, info = run_one(fa, recipe, case["dtx"], case["dty"], case["simplify"])
+        force = bool(case.get("force"))
+        st, info = run_one(fa, recipe, case["dtx"], case["dty"], case["simplify"], force)
         if st == "assertion":
             best = recipe
             for sub in subtrees(recipe):
-                s2, i2 = run_one(fa, sub, case["dtx"], case["dty"], case["simplify"])
+                s2, i2 = run_one(fa, sub, case["dtx"], case["dty"], case["simplify"], force)
                 if s2 == "assertion":
                     best, info = sub, i2
                     break
